@@ -316,7 +316,7 @@ def main(tier):
     return core.finish(
         PROP, tier, "model_checking", merged, t0,
         rule="value-dependent types written as Dependent[bound, fn] (every space) and as @dependent_check function / parametrised function "
-             "/ class, a ParametrizedDependentType subclass, Dependent[bound, existing type] (spaces i1, ii, iv, v, ix, x; thorough also i, iii); integer domain {0,1,2} with ALL 8 predicates, bounds int / object; class bounds K0 / K1 with attribute predicates; "
+             "/ class, a ParametrizedDependentType subclass, Dependent[bound, existing type] (a fresh type per use / ONE shared type re-bound everywhere) (spaces i1, ii, iv, v, ix, x; thorough also i, iii); integer domain {0,1,2} with ALL 8 predicates, bounds int / object; class bounds K0 / K1 with attribute predicates; "
              "<= 2 (thorough 3) dependent methods + <= 1 static method on the bound, a subclass or an unrelated class; priorities; "
              "one position, two positions, keyword-only dependent parameter, a union of two dependent types with different bounds; "
              "a union whose dependent member has a strictly narrower bound than another member; intersections with dependent members; combinations of combinations (dependent members two levels down, plain class & dependent type of wider bound inside a union); 4-5 single-valued Literal methods of which every proper subset carries a second dependent condition on the other position; "
